@@ -271,7 +271,7 @@ pub fn adaptive_scenario(r: &mut Report, seed: u64, variant: usize) {
     r.eval();
     let mut rng = Rng::new(seed);
     let w = World::with_cfg(seed, NetCfg::default(), TraceLevel::Full);
-    let case = json!({"class":"adaptive","seed":seed.to_string(),"variant":variant});
+    let mut case = json!({"class":"adaptive","seed":seed.to_string(),"variant":variant});
     // one responder (a single address vote per lookup) up to seven
     let n_servers = 1 + rng.usize(7);
     let net = build_net(&w, n_servers, 0, IpPlan::Public, false, &mut rng);
@@ -318,6 +318,16 @@ pub fn adaptive_scenario(r: &mut Report, seed: u64, variant: usize) {
     }
     let x = w.spawn(spec).expect("x");
     let t0 = w.now();
+    // neighbours of the wrongly voted address that happen to ping the node: one on the voted IP but another
+    // port, one on another IP but the voted port. Neither is the address the node pinged to confirm itself.
+    let neighbours = if matches!(variant, 2 | 5) { rng.usize(4) } else { 0 };
+    let n_same_ip = if neighbours & 1 != 0 { Some(w.raw(SocketAddrV4::new(*wrong.ip(), 7000 + rng.usize(500) as u16))) } else { None };
+    let n_same_port = if neighbours & 2 != 0 { Some(w.raw(SocketAddrV4::new(Ipv4Addr::new(74, 4, 4, 4), wrong.port()))) } else { None };
+    let mut next_neighbour_ping = t0 + 30 * SEC + rng.below(60) * SEC;
+    case["neighbours"] = json!(neighbours);
+    if neighbours != 0 {
+        r.count("adaptive_worlds_with_pinging_neighbours_of_the_voted_address");
+    }
     let mut timeline: Vec<(u64, bool, bool, Option<SocketAddrV4>)> = vec![];
     let mut became_server_at: Option<u64> = None;
     // occasional lookups carry address votes
@@ -325,6 +335,14 @@ pub fn adaptive_scenario(r: &mut Report, seed: u64, variant: usize) {
     let mut next_lookup = t0 + 2 * SEC;
     while w.now() < t0 + total {
         w.run_for(20 * SEC);
+        if w.now() >= next_neighbour_ping {
+            for (k, sock) in [n_same_ip, n_same_port].into_iter().enumerate() {
+                if let Some(sock) = sock {
+                    w.raw_send(sock, &q_ping(&[7, k as u8], &[0x61 + k as u8; 20]), x.addr);
+                }
+            }
+            next_neighbour_ping = w.now() + 2 * MIN + rng.below(120) * SEC;
+        }
         if w.now() >= next_lookup {
             let a = x.adht.clone();
             let t = Id::from(rng.array::<20>());
